@@ -1137,6 +1137,7 @@ async def run_join_limit(world: World, spec):
     from ipv8.messaging.anonymization.payload import CreatePayload
     await world.build([False, True, True, True])
     limit = world.ov(2).settings.max_joined_circuits
+    world.count(f"join:limit={limit if limit < 10 else 'default'}")
     t = odd(world.ticks() + 4)
     await asyncio.sleep((t - world.ticks()) / TPS)
     target = world.nodes[1]
@@ -1215,7 +1216,8 @@ async def run_swarm(world: World, spec):
     own; `leave_swarm` must tear down both swarm circuits - every entry descending from them is gone at the deadline -
     while the data circuit lives on"""
     from ipv8.messaging.anonymization.tunnel import CIRCUIT_TYPE_IP_SEEDER
-    await world.build([False] + [True] * (spec["nodes"] - 1), hidden=(1,))
+    # every node runs the production overlay in its stock configuration (no `ipv8` service object, hence no PEX)
+    await world.build([False] + [True] * (spec["nodes"] - 1), hidden=tuple(range(1, spec["nodes"] + 1)))
     meta = world.meta
     B = meta["max_time_inactive"] + SWEEP_ALLOWANCE_S + meta["remove_tunnel_delay"]
     info_hash = b"s" * 20
@@ -1223,7 +1225,16 @@ async def run_swarm(world: World, spec):
     await asyncio.sleep((t - world.ticks()) / TPS)
     hops = spec["hops"]
     ready = world.create_circuit(1, hops, ctype=CIRCUIT_TYPE_IP_SEEDER, info_hash=info_hash)
-    await asyncio.sleep(64 / TPS)
+    await asyncio.sleep(32 / TPS)
+    if ready is not None and ready.state == "READY":
+        # the exit of the READY circuit becomes an introduction point (its exit socket gets the overlay's intro-point
+        # bookkeeping, which remove_exit_socket has to undo whenever the socket is reclaimed)
+        from ipv8.messaging.anonymization.payload import EstablishIntroPayload
+        world.ov(1).send_cell(ready.hop.address, EstablishIntroPayload(ready.circuit_id, 4711, info_hash, b"k" * 32))
+        await asyncio.sleep(8 / TPS)
+        world.count("swarm:intro_points_registered",
+                    sum(len(n.overlay.intro_point_for) for n in world.nodes))
+    await asyncio.sleep(24 / TPS)
     # the answer that would complete the second circuit is late (it arrives after the swarm was left), not lost: a
     # circuit with a required exit has no alternative and would give itself up on a lost answer
     world.faults.append(Fault("delay", ["created"] if hops == 1 else ["extended"], nth=[0],
@@ -1401,10 +1412,16 @@ def run_case(ctx: Ctx, spec, use_model: bool, kind="scenario"):
     loop = vclock.VLoop()
     asyncio.set_event_loop(loop)
     vclock.install(loop)
-    world = World(wrng, spec.get("nodes", 5),
-                  settings_patch={"remove_tunnel_delay": 0} if spec.get("variant") == "destroy0" else None)
+    patch = {}
     if spec.get("variant") == "destroy0":
+        patch["remove_tunnel_delay"] = 0
+    if spec.get("limit") is not None:
+        patch["max_joined_circuits"] = spec["limit"]      # boundary values of the join limit (0 = always at the limit)
+    world = World(wrng, spec.get("nodes", 5), settings_patch=patch or None)
+    if "remove_tunnel_delay" in patch:
         world.flat.append(("delay 0", None, None))
+    if "max_joined_circuits" in patch:
+        world.flat.append((f"maxjoined {patch['max_joined_circuits']}", None, None))
     world.loop = loop
     world.base = loop.time()
     world.meta = META
@@ -1626,6 +1643,8 @@ def run_all(ctx: Ctx, n_random, use_model, with_exhaustive):
             for variant in ("remove_now", "destroy0"):
                 run_case(ctx, {"nodes": 5, "hops": hops, "variant": variant, "ks": list(range(0, 10))}, use_model,
                          kind="race")
+        for limit in (0, 1, 3):
+            run_case(ctx, {"nodes": 4, "over": 4, "relayed": 0, "limit": limit}, use_model, kind="join")
         run_case(ctx, {"nodes": 4, "over": 5, "relayed": 0}, use_model, kind="join")
         run_case(ctx, {"nodes": 4, "over": 3, "relayed": 2}, use_model, kind="join")
         for hops in (2, 3):
@@ -1662,7 +1681,7 @@ COVERAGE_FLOOR = [
     "fault:drop:", "fault:dup:", "fault:delay:", "wanting_node", "final_abandon",
     "originator_entry_already_reclaimed", "companions_alive_at_main_deadline", "companion:created",
     "age:circuit_still_ready_before_limit", "race:remove_now:", "race:destroy0:", "case:join", "case:early",
-    "extend_of_enabled_exit_socket", "swarm:leave:", "swarm:data_circuit_alive_at_deadline", "ipv6_bind_refused", "unsendable_exit",
+    "join:limit=0", "join:limit=1", "join:limit=default", "extend_of_enabled_exit_socket", "swarm:leave:", "swarm:intro_points_registered", "swarm:data_circuit_alive_at_deadline", "ipv6_bind_refused", "unsendable_exit",
     "hops:1", "hops:2", "hops:3", "phase:halfbuilt", "phase:ready", "phase:transfer", "obs_compared",
 ]
 
